@@ -130,13 +130,13 @@ VARIANTS += [
     V("c07-sep", "C07", C2, 'return "/".join(vector)', 'return ",".join(vector)', rule="C07.emit.sep"),
     V("c07-rename-local-N", "C07", C2, '        vector = []\n        for metric in METRICS_ABBREVIATIONS:\n            if metric in self.metrics:\n                value = self.metrics[metric]\n                if value != "ND":\n                    vector.append("{0}:{1}".format(metric, value))\n        return "/".join(vector)', '        parts = []\n        for m_ in METRICS_ABBREVIATIONS:\n            if m_ in self.metrics:\n                val = self.metrics[m_]\n                if val != "ND":\n                    parts.append(m_ + ":" + val)\n        return "/".join(parts)', "silent"),
     # ---------------------------------------------------------------- C12
-    V("c12-tolerance", "C12", C3, "if cvss_object.scores()[0] == score_value:", "if abs(cvss_object.scores()[0] - score_value) < 0.05:", rule="C12.parse.compare"),
-    V("c12-slot1", "C12", C3, "if cvss_object.scores()[0] == score_value:", "if cvss_object.scores()[1] == score_value:", rule="C12.parse.compare"),
-    V("c12-split-nolimit", "C12", C2, 'score, base_vector = vector.split("/", 1)', 'score, base_vector = vector.split("/")', rule="C12.parse.split"),
+    V("c12-tolerance", "C12", C3, "if cvss_object.scores()[0] == score_value:", "if abs(cvss_object.scores()[0] - score_value) < 0.05:", rule="C12.sem"),
+    V("c12-slot1", "C12", C3, "if cvss_object.scores()[0] == score_value:", "if cvss_object.scores()[1] == score_value:", rule="C12.sem"),
+    V("c12-split-nolimit", "C12", C2, 'score, base_vector = vector.split("/", 1)', 'score, base_vector = vector.split("/")', rule="C12.sem"),
     V("c12-rh-int", "C12", C2, 'return str(self.scores()[0]) + "/" + self.clean_vector()', 'return str(int(self.scores()[0])) + "/" + self.clean_vector()', rule="C12.emit"),
     V("c12-rh-temporal", "C12", C3, 'return str(self.scores()[0]) + "/" + self.clean_vector()', 'return str(self.scores()[1]) + "/" + self.clean_vector()', rule="C12.emit"),
-    V("c12-wrong-exc", "C12", C4, "        except ValueError:\n            raise CVSS4RHMalformedError(\n                'Malformed CVSS4 vector in Red Hat notation \"{0}\"'.format(vector)\n            )\n        cvss_object", "        except ValueError:\n            raise CVSS4MalformedError(\n                'Malformed CVSS4 vector in Red Hat notation \"{0}\"'.format(vector)\n            )\n        cvss_object", rule="C12.parse.number"),
-    V("c12-swallow-ctor", "C12", C3, "        cvss_object = cls(base_vector)\n", "        try:\n            cvss_object = cls(base_vector)\n        except Exception:\n            raise CVSS3RHMalformedError(\"bad\")\n", rule="C12.parse.ctor"),
+    V("c12-wrong-exc", "C12", C4, "        except ValueError:\n            raise CVSS4RHMalformedError(\n                'Malformed CVSS4 vector in Red Hat notation \"{0}\"'.format(vector)\n            )\n        cvss_object", "        except ValueError:\n            raise CVSS4MalformedError(\n                'Malformed CVSS4 vector in Red Hat notation \"{0}\"'.format(vector)\n            )\n        cvss_object", rule="C12.sem"),
+    V("c12-swallow-ctor", "C12", C3, "        cvss_object = cls(base_vector)\n", "        try:\n            cvss_object = cls(base_vector)\n        except Exception:\n            raise CVSS3RHMalformedError(\"bad\")\n", rule="C12.sem"),
     V("c12-format-N", "C12", C2, 'return str(self.scores()[0]) + "/" + self.clean_vector()', 'return "{0}/{1}".format(self.scores()[0], self.clean_vector())', "silent"),
     # ---------------------------------------------------------------- C15
     V("c15-order", "C15", K2, 'TEMPORAL_METRICS = ["E", "RL", "RC"]', 'TEMPORAL_METRICS = ["E", "RC", "RL"]', rule="C15.emit.order"),
@@ -216,13 +216,14 @@ VARIANTS += [
     V("c16-back-to-old-accept", "C16", INT, '            matching = [value for value in values if value.upper() == input_value]\n            if matching:\n                vector.append(metric + ":" + matching[0])\n                break', '            if input_value in values:\n                vector.append(metric + ":" + input_value)\n                break', rule="C16.semantic"),
     V("c16-message-N", "C16", INT, 'print("Interactive CVSS2 calculator")', 'print("Interactive CVSS 2 calculator")', "silent"),
     # ---------------------------------------------------------------- C17
-    V("c17-4-as-3", "C17", CLI, "            elif version == 4.0:\n                cvss_vector = CVSS4(vector_string)", "            elif version == 4.0:\n                cvss_vector = CVSS3(vector_string)", rule="C17.dispatch"),
-    V("c17-json-no-minimal", "C17", CLI, "as_json(sort=True, minimal=True)", "as_json(sort=True)", rule="C17.print.json"),
-    V("c17-except-narrow", "C17", CLI, "        except CVSSError as e:\n            print(e)", "        except CVSS3Error as e:\n            print(e)", rule="C17.contain"),
-    V("c17-eof-uncaught", "C17", CLI, "    except (KeyboardInterrupt, EOFError):", "    except KeyboardInterrupt:", rule="C17.contain.eof"),
-    V("c17-mapping-3", "C17", CLI, 'version_mapping = {"2": 2, "3": 3.0, "3.1": 3.1, "4": 4.0}', 'version_mapping = {"2": 2, "3": 3.1, "3.1": 3.1, "4": 4.0}', rule="C17.version"),
-    V("c17-score-slot", "C17", CLI, 'score = scores[i], "({0})".format(severities[i])', 'score = scores[i], "({0})".format(severities[0])', rule="C17.print.slots"),
-    V("c17-order-flags", "C17", CLI, 'for key in ("2", "3", "4") if getattr(args, key)', 'for key in ("json", "2", "3", "4") if getattr(args, key)', rule="C17.version"),
+    V("c17-4-as-3", "C17", CLI, "            elif version == 4.0:\n                cvss_vector = CVSS4(vector_string)", "            elif version == 4.0:\n                cvss_vector = CVSS3(vector_string)", rule="C17.sem.dispatch"),
+    V("c17-json-no-minimal", "C17", CLI, "as_json(sort=True, minimal=True)", "as_json(sort=True)", rule="C17.sem.print"),
+    V("c17-except-narrow", "C17", CLI, "        except CVSSError as e:\n            print(e)", "        except CVSS3Error as e:\n            print(e)", rule="C17.sem.contain"),
+    V("c17-eof-uncaught", "C17", CLI, "    except (KeyboardInterrupt, EOFError):", "    except KeyboardInterrupt:", rule="C17.sem.contain"),
+    # -3 selecting 3.1 instead of 3.0 is still CVSS v3: the property pins the major version only
+    V("c17-mapping-3-N", "C17", CLI, 'version_mapping = {"2": 2, "3": 3.0, "3.1": 3.1, "4": 4.0}', 'version_mapping = {"2": 2, "3": 3.1, "3.1": 3.1, "4": 4.0}', "silent"),
+    V("c17-score-slot", "C17", CLI, 'score = scores[i], "({0})".format(severities[i])', 'score = scores[i], "({0})".format(severities[0])', rule="C17.sem.print"),
+    V("c17-order-flags", "C17", CLI, 'for key in ("2", "3", "4") if getattr(args, key)', 'for key in ("json", "2", "3", "4") if getattr(args, key)', rule="C17.sem"),
     V("c17-pad-N", "C17", CLI, "PAD = 24", "PAD = 26", "silent"),
     # ---------------------------------------------------------------- C20
     V("c20-fstring", "C20", C3, "raise CVSS3MalformedError('Duplicate metric \"{0}\"'.format(metric))", "raise CVSS3MalformedError(f'Duplicate metric \"{metric}\"')", rule="C20.syntax"),
